@@ -110,8 +110,12 @@ package server
 // part is non-empty and numbered by its index; at the end offset == b.Total. The loop terminates
 // (variant b.Total - offset). The adjacency form (part k ends where part k+1 starts) is asserted at
 // the final return and follows from the closed form.
+// Frame: Prepare#frame.* for the call makeRequestWithRetry(..., nil /* headers */, ...) cannot be
+// discharged by govc-stable (the callee's `modifies headers[all]` is checked against a nil map that
+// is neither fresh nor listed) - listed as undecided in props/C03.json.
 //@ func (*blobDownload).Prepare
 //@   requires len(b.Digest) >= 19
+//@   modifies b.done, b.Total, b.Parts, requestURL.Scheme, opts.Token
 //@   ensures b.Digest == old(b.Digest) && b.Name == old(b.Name)
 //@   loop 1 invariant b.Digest == old(b.Digest) && b.Name == old(b.Name)
 //@   assume-at after call ParseInt #1 : result.0 <= (1 << 62)      -- range assumption: a blob is smaller than 4 EiB (otherwise offset+size wraps)
@@ -146,7 +150,12 @@ package server
 
 // blobDownloadManager is written only here (LoadOrStore with a *blobDownload whose Digest is the
 // key); an entry found there was stored by another downloadBlob call with the same digest.
+// A-fn: the progress callback only forwards its argument (routes.go: `fn := func(r api.ProgressResponse) { ch <- r }`);
+// it writes nothing that the pull path can observe.
+//@ extern func (downloadOpts).fn
+//@   modifies nothing
 //@ func downloadBlob
+//@   modifies opts.regOpts.Token
 //@   assume-at call GetBlobsPath #1 : ErrInvalidDigestFormat != nil   -- package-level errors.New value, assigned once at package init, never reassigned
 //@   assume-at after call LoadOrStore #1 : result.1 ==> tagis(result.0, "*blobDownload")     -- only *blobDownload values are ever stored in blobDownloadManager
 //@   assume-at call Wait #1 : ok ==> download.Digest == opts.digest       -- entries are stored under their own digest
@@ -163,6 +172,7 @@ package server
 //@   modifies nothing
 //@ func (*blobDownload).Wait
 //@   requires len(b.Digest) >= 19
+//@   modifies nothing
 //@   loop 1 invariant b.Digest == old(b.Digest)
 
 //@ func (*blobDownload).Run
